@@ -5,6 +5,7 @@ mod bftmsgs;
 mod bftsim;
 mod checks;
 mod pipe;
+mod refmodel;
 mod core;
 mod sched;
 mod wire;
